@@ -63,20 +63,20 @@ func Hash64(parts ...any) uint64 {
 // Recorder counts what a test explored. It is written to
 // $VERIF_OUT/<test>.stats.json when the test ends.
 type Recorder struct {
-	mu         sync.Mutex
-	t          testing.TB
-	Test       string           `json:"test"`
-	Evals      int64            `json:"evaluations"`
-	NonTrivial int64            `json:"nontrivial"`
-	Distinct   int64            `json:"distinct_nontrivial"`
-	Classes    map[string]int64 `json:"classes"`
-	Excluded   map[string]int64 `json:"excluded"`
-	Samples    []any            `json:"samples"`
-	Known      map[string]string `json:"known"`
-	Extra      map[string]any   `json:"extra"`
-	Exhaustive bool             `json:"exhaustive"`
-	seen       map[uint64]struct{}
-	maxSamples int
+	mu          sync.Mutex
+	t           testing.TB
+	Test        string            `json:"test"`
+	Evals       int64             `json:"evaluations"`
+	NonTrivial  int64             `json:"nontrivial"`
+	Distinct    int64             `json:"distinct_nontrivial"`
+	Classes     map[string]int64  `json:"classes"`
+	Excluded    map[string]int64  `json:"excluded"`
+	Samples     []any             `json:"samples"`
+	Known       map[string]string `json:"known"`
+	Extra       map[string]any    `json:"extra"`
+	Exhaustive  bool              `json:"exhaustive"`
+	seen        map[uint64]struct{}
+	maxSamples  int
 	sampleEvery int64
 }
 
@@ -91,6 +91,9 @@ func NewRecorder(t testing.TB) *Recorder {
 // Case records one generated case: key identifies it for distinctness,
 // nontrivial is the property's stated rule, classes feed the histogram.
 func (r *Recorder) Case(key uint64, nontrivial bool, classes ...string) {
+	if r == nil {
+		return
+	}
 	r.mu.Lock()
 	defer r.mu.Unlock()
 	r.Evals++
@@ -111,6 +114,9 @@ func (r *Recorder) Case(key uint64, nontrivial bool, classes ...string) {
 // Bulk adds counts produced by an enumeration that does its own distinctness
 // accounting (every enumerated point is distinct by construction).
 func (r *Recorder) Bulk(evals, nontrivialDistinct int64) {
+	if r == nil {
+		return
+	}
 	r.mu.Lock()
 	defer r.mu.Unlock()
 	r.Evals += evals
@@ -120,6 +126,9 @@ func (r *Recorder) Bulk(evals, nontrivialDistinct int64) {
 
 // Class bumps a histogram class by n.
 func (r *Recorder) Class(c string, n int64) {
+	if r == nil {
+		return
+	}
 	r.mu.Lock()
 	r.Classes[c] += n
 	r.mu.Unlock()
@@ -127,6 +136,9 @@ func (r *Recorder) Class(c string, n int64) {
 
 // Exclude counts a case left out by construction (known finding class).
 func (r *Recorder) Exclude(c string) {
+	if r == nil {
+		return
+	}
 	r.mu.Lock()
 	r.Excluded[c]++
 	r.mu.Unlock()
@@ -134,6 +146,9 @@ func (r *Recorder) Exclude(c string) {
 
 // Sample keeps a few written-out cases (spread over the run).
 func (r *Recorder) Sample(v any) {
+	if r == nil {
+		return
+	}
 	r.mu.Lock()
 	defer r.mu.Unlock()
 	if len(r.Samples) < r.maxSamples {
@@ -149,6 +164,9 @@ func (r *Recorder) Sample(v any) {
 
 // WantSample tells whether building a sample is worth it right now.
 func (r *Recorder) WantSample() bool {
+	if r == nil {
+		return false
+	}
 	r.mu.Lock()
 	defer r.mu.Unlock()
 	return len(r.Samples) < r.maxSamples || (r.sampleEvery+1)%97 == 0
@@ -156,6 +174,9 @@ func (r *Recorder) WantSample() bool {
 
 // Set stores an extra evidence value.
 func (r *Recorder) Set(k string, v any) {
+	if r == nil {
+		return
+	}
 	r.mu.Lock()
 	r.Extra[k] = v
 	r.mu.Unlock()
@@ -163,6 +184,9 @@ func (r *Recorder) Set(k string, v any) {
 
 // Add adds to an extra numeric evidence value.
 func (r *Recorder) Add(k string, n int64) {
+	if r == nil {
+		return
+	}
 	r.mu.Lock()
 	cur, _ := r.Extra[k].(int64)
 	r.Extra[k] = cur + n
